@@ -16,7 +16,13 @@ inline constexpr struct fma {
     template <typename Float>
     [[nodiscard]] constexpr auto operator()(Float x, Float y, Float z) const noexcept -> Float
     {
-        if (not is_constant_evaluated()) {
+        // gcc folds the builtins (single rounding) in constant expressions if all operands are finite
+#if defined(TETL_COMPILER_GCC)
+        auto const foldable = __builtin_isfinite(x) and __builtin_isfinite(y) and __builtin_isfinite(z);
+#else
+        auto const foldable = false;
+#endif
+        if (foldable or not is_constant_evaluated()) {
 #if __has_builtin(__builtin_fmaf)
             if constexpr (is_same_v<Float, float>) {
                 return __builtin_fmaf(x, y, z);
